@@ -196,8 +196,9 @@ def _comp_hook(models, it, e, iterable, fr, kind):
         models.note(it, "exact:filter comprehension (length = recursive count of the predicate; elements unspecified)")
         return run.alloc(HSeq(res, z3.IntVal(0), cnt, elem))
     # map
-    i = z3.Int("i!map%d" % run.fresh_n)
-    run.fresh_n += 1
+    depth = getattr(run, "comp_depth", 0)
+    i = z3.Int("i!map%d" % depth)
+    run.comp_depth = depth + 1
     sub = X.Frame({tname: run.wrap_elem(arr[i], elem)}, fr.fi, fr.cls, parent=fr, module=fr.module)
     sub.spec = X.SpecEnv()
     sub.spec.old = getattr(run, "old_state", None)
@@ -206,6 +207,7 @@ def _comp_hook(models, it, e, iterable, fr, kind):
         v = it.ev(e.elt, sub)
     finally:
         run.spec_depth -= 1
+        run.comp_depth = depth
     k = kind_of_value(it, v)
     t = it.elem_term(v, k)
     return run.alloc(HSeq(z3.Lambda([i], t), z3.IntVal(0), n, k))
@@ -333,7 +335,7 @@ def _np_zeros(models, it, args, kw, fr, node, val=0):
     n = args[0]
     if isinstance(n, tuple):
         raise Unsupported("np.zeros with a shape tuple", node)
-    return it.run.alloc(HSeq(z3.K(INT, z3.RealVal(val)), z3.IntVal(0), b2i(z(n)), "Real"))
+    return it.run.alloc(HSeq(z3.K(INT, z3.RealVal(val)), z3.IntVal(0), b2i(z(n)), "Real", nd=True))
 
 
 def _np_ones(models, it, args, kw, fr, node):
@@ -343,7 +345,7 @@ def _np_ones(models, it, args, kw, fr, node):
 def _np_empty_like(models, it, args, kw, fr, node):
     o = _seq_of(it, args[0], node)
     arr = it.run.fresh(o.arr.sort(), "empty_like")
-    return it.run.alloc(HSeq(arr, z3.IntVal(0), z3.simplify(o.hi - o.lo), o.elem))
+    return it.run.alloc(HSeq(arr, z3.IntVal(0), z3.simplify(o.hi - o.lo), o.elem, nd=True))
 
 
 def _norm_bound(x, n, default):
@@ -382,3 +384,111 @@ HOOKS["setslice"].append(_setslice)
 _arrays.EXTRA_EXT["numpy.zeros"] = _np_zeros
 _arrays.EXTRA_EXT["numpy.ones"] = _np_ones
 _arrays.EXTRA_EXT["numpy.empty_like"] = _np_empty_like
+
+
+# -- element-wise arithmetic on 1-D numpy arrays ------------------------------------------------------------------------
+def _np_array_seq(models, it, v, kw, node):
+    if isinstance(v, Ref):
+        o = it.run.obj(v)
+        if isinstance(o, HList) and o.items and all(is_num(x) for x in o.items):
+            o = it.list_to_seq(o)
+        if isinstance(o, HSeq) and o.elem in ("Int", "Real"):
+            i = z3.Int("i!npa")
+            return it.run.alloc(HSeq(z3.Lambda([i], o.arr[o.lo + i]), z3.IntVal(0), z3.simplify(o.hi - o.lo), o.elem, nd=True))
+    return NotImplemented
+
+
+_arrays.HOOKS_ARRAY.append(_np_array_seq)
+
+
+def _vec_binop(models, it, op, a, b, node):
+    ra = isinstance(a, Ref) and isinstance(it.run.obj(a), HSeq) and it.run.obj(a).nd
+    rb = isinstance(b, Ref) and isinstance(it.run.obj(b), HSeq) and it.run.obj(b).nd
+    if not (ra or rb):
+        return NotImplemented
+    sop = X.BINOPS.get(type(op))
+    if sop not in ("+", "-", "*", "/"):
+        raise Unsupported("vector operator", node)
+    i = z3.Int("i!vec")
+
+    def elem(v, isvec):
+        if isvec:
+            o = it.run.obj(v)
+            return o.arr[o.lo + i], o
+        vv = it.run.num(v)
+        if isinstance(vv, SArr1):
+            vv = vv.val
+        return vv, None
+    ea, oa = elem(a, ra)
+    eb, ob = elem(b, rb)
+    if oa is not None and ob is not None:
+        it.run.oblige("vector-lengths@%s" % getattr(node, "lineno", "?"), (oa.hi - oa.lo) == (ob.hi - ob.lo), kind="safety")
+    n = (oa.hi - oa.lo) if oa is not None else (ob.hi - ob.lo)
+    t = arith(sop, ea, eb)
+    es = "Int" if (is_z3(t) and t.sort() == INT) else "Real"
+    models.note(it, "exact:element-wise arithmetic on 1-D numpy arrays (as lambda arrays)")
+    return it.run.alloc(HSeq(z3.Lambda([i], t), z3.IntVal(0), z3.simplify(n), es, nd=True))
+
+
+HOOKS["binop"].append(_vec_binop)
+
+
+def _np_sum(models, it, args, kw, fr, node):
+    v = args[0]
+    if kw:
+        raise Unsupported("np.sum with keyword arguments", node)
+    if isinstance(v, Ref) and isinstance(it.run.obj(v), (HSeq, HList)):
+        return models.vsum(it, _seq_of(it, v, node))
+    raise Unsupported("np.sum(%r)" % (v,), node)
+
+
+_arrays.EXTRA_EXT["numpy.sum"] = _np_sum
+
+
+# -- comprehension over range(a, b) with symbolic bounds: a lambda array -----------------------------------------------
+def _comp_range(models, it, e, iterable, fr, kind):
+    if kind != "list" or tag(iterable) != "range":
+        return NotImplemented
+    _, a, b, st = iterable
+    if st != 1 or all(isinstance(x, int) for x in (a, b)):
+        return NotImplemented
+    g = e.generators[0]
+    if g.ifs or not isinstance(g.target, ast.Name):
+        raise Unsupported("comprehension over a symbolic range with a filter", e)
+    run = it.run
+    depth = getattr(run, "comp_depth", 0)
+    i = z3.Int("i!rng%d" % depth)       # canonical bound name (per nesting depth): alpha-equivalent lambdas coincide
+    run.comp_depth = depth + 1
+    za, zb_ = b2i(z(a)), b2i(z(b))
+    sub = X.Frame({g.target.id: za + i}, fr.fi, fr.cls, parent=fr, module=fr.module)
+    sub.spec = X.SpecEnv()
+    sub.spec.old = getattr(run, "old_state", None)
+    run.spec_depth += 1
+    npc = len(run.pc)
+    run.pc.append(z3.And(i >= 0, za + i < zb_))       # the bound variable ranges over the comprehension's indices
+    try:
+        v = it.ev(e.elt, sub)
+    finally:
+        run.spec_depth -= 1
+        run.comp_depth = depth
+        del run.pc[npc:]
+    k = kind_of_value(it, v)
+    n = z3.If(zb_ - za < 0, z3.IntVal(0), zb_ - za)
+    return run.alloc(HSeq(z3.Lambda([i], z3.simplify(it.elem_term(v, k))), z3.IntVal(0), z3.simplify(n), k))
+
+
+HOOKS["comp"].append(_comp_range)
+
+
+def _spec_sumsq(self, e, fr):
+    """sumsq(xs, c, k) = sum_{i<k} (xs[i] - c)^2"""
+    o = _hseq(self, self.ev(e.args[0], fr))
+    c = to_real(self.ev(e.args[1], fr))
+    k = b2i(z(self.ev(e.args[2], fr)))
+    i = z3.Int("i!rng0")
+    x = to_real(o.arr[o.lo + i])
+    f = vsum_fn(self, REAL)
+    return f(z3.Lambda([i], z3.simplify((x - c) * (x - c))), z3.IntVal(0), z3.simplify(z3.If(k < 0, z3.IntVal(0), k)))
+
+
+X.Interp.spec_sumsq = _spec_sumsq
